@@ -63,10 +63,14 @@ def main():
     try:
         mod.run(ctx, driver)
     except Exception:
-        # a crash of the harness is not a verdict about the property
+        # a crash of the harness is not a verdict about the property ...
         traceback.print_exc()
-        print(f"HARNESS-ERROR property={pid}")
-        return 2
+        if not ctx.violations:
+            print(f"HARNESS-ERROR property={pid}")
+            return 2
+        # ... but violations it had already established (each with its own replayable input) stand: misbehaving code is
+        # exactly what makes harnesses trip
+        ctx.notes.append("the harness stopped with an exception after recording the violations reported here")
 
     broken = []
     if not lean.translator_ok:
